@@ -103,6 +103,11 @@ class WireChopManager(WireManagerBase):
     def grade(self) -> None:
         self.update()
 
+        # start from scratch; the mesh could have been graded (written) before
+        self.grading.specification = []
+        for wire in self.wires:
+            wire.grading.specification = []
+
         # Create a proper Grading from chops
         for chop in self.chops:
             self.grading.add_chop(chop)
